@@ -96,6 +96,28 @@ Example wait_after_unlock_accepted :
   check_program (waits_contracts [("Remove", remove_not_waiting)]) [("Remove", remove_not_waiting)] ["Remove"] [] [] = [].
 Proof. vm_compute. reflexivity. Qed.
 
+(* the clock pseudo field: read before queueing for the sink's mutex is rejected (seeded C15-9), after taking it accepted *)
+Definition clock_contracts (pr : program) : contracts :=
+  {| guard_of := fun f => if String.eqb f "FileSink.clock!" then GLock "FileSink.l" else GFree; requires := fun _ => [];
+     acquires := fun f => assocd f (infer 6 (fun _ => []) pr []) []; user_acquires := fun _ => []; constructors := []; waived := [];
+     rank := fun _ => 5%nat |}.
+Definition process_clock_early : prog :=
+  PSeq (PAct (Rd "FileSink.clock!")) (PSeq (PAct (Acq "FileSink.l" MW)) (PSeq (PDefer (Rel "FileSink.l" MW)) PRet)).
+Definition process_clock_locked : prog :=
+  PSeq (PAct (Acq "FileSink.l" MW)) (PSeq (PDefer (Rel "FileSink.l" MW)) (PSeq (PAct (Rd "FileSink.clock!")) PRet)).
+Example clock_early_rejected :
+  flat_complaints (check_program (clock_contracts [("Process", process_clock_early)]) [("Process", process_clock_early)] ["Process"] [] [])
+  = [("Process", KUnguardedRead, "FileSink.clock!")].
+Proof. vm_compute. reflexivity. Qed.
+Example clock_locked_accepted :
+  check_program (clock_contracts [("Process", process_clock_locked)]) [("Process", process_clock_locked)] ["Process"] [] [] = [].
+Proof. vm_compute. reflexivity. Qed.
+(* an unaudited concurrency construct *)
+Example unaudited_rejected :
+  flat_complaints (unaudited [("process", "go")] [("process", process_body); ("Reopen", PSeq (PGo (PSeq (PAct (User "wait:chan-send")) PRet)) PRet)])
+  = [("Reopen", KUnauditedConcurrency, "go"); ("Reopen", KUnauditedConcurrency, "wait:chan-send")].
+Proof. vm_compute. reflexivity. Qed.
+
 Definition fenv_good := fenv_of (reachable mini_good ["Send"; "RemoveNode"]).
 Lemma fenv_good_remove : fenv_good "RemoveNode" = Some remove_good. Proof. vm_compute. reflexivity. Qed.
 Lemma fenv_good_send : fenv_good "Send" = Some send_body. Proof. vm_compute. reflexivity. Qed.
